@@ -24,13 +24,19 @@ def check(pid, tier, replay=None):
         fates = sorted(set(tuple(h[0]["fates"][str(i)] if isinstance(h[0]["fates"], dict) else h[0]["fates"][i - 1]
                                  for i in (1, 2, 3)) for h in hists + cex))
         fates = [f for f in fates if "none" not in f and any(x != "prompt" for x in f)] + [("prompt", "prompt", "prompt")]
-        cases = [dict(id="C19-%s-%d" % (ifc, i), iface=ifc, fates=list(f)) for ifc in ("abmf", "rating") for i, f in enumerate(fates)]
+        # the model's request n is mapped onto the real traffic in several ways: the account debit of update n; the
+        # reservation (2), first (1) or last (3) rating request of update n; or ("dense") the n-th rating request of
+        # ONE update, so that "late during the next request" also means the next request of the same update
+        cases = [dict(id="C19-abmf-%d" % i, iface="abmf", fates=list(f), pos=0, dense=False) for i, f in enumerate(fates)]
+        for pos in (2, 1, 3):
+            cases += [dict(id="C19-rating%d-%d" % (pos, i), iface="rating", fates=list(f), pos=pos, dense=False) for i, f in enumerate(fates)]
+        cases += [dict(id="C19-dense-%d" % i, iface="rating", fates=list(f), pos=0, dense=True) for i, f in enumerate(fates)]
         if tier == "quick":
             must = [c for c in cases if c["fates"][0] in ("late_idle", "late_during_next") and c["fates"][1] == "prompt" and c["fates"][2] == "prompt"]
             rest = [c for c in cases if c not in must]
             rnd.shuffle(rest)
-            cases = must + rest[:8]
-        mode, chunk, nw = "link", 1, 14
+            cases = must + rest[:10]
+        mode, chunk, nw = "link", 1, 16
     else:
         if tier == "quick":
             cases = [dict(id="C18-a", n=10, subs=1, finalAt=0), dict(id="C18-b", n=100, subs=1, finalAt=4), dict(id="C18-c", n=100, subs=3, finalAt=0)]
